@@ -72,14 +72,11 @@ RARE_KINDS = ["CHMOD", "COPY", "FSYNC", "LINK", "MKDIR", "SYMLINK", "TRUNCATE", 
 
 
 def unseen_ops_fault(rng, ops):
-    """Calls the fault-free run never makes (chmod, fsync, link, truncate, copy_file_range, ...) cannot be addressed by
-    operation number - but code that starts making them has to cope with their failure as well (a file system without
-    permissions or without fsync, a sandbox that refuses the call).  One class-addressed fault: every such call fails."""
-    seen = {o.kind for o in ops}
-    kinds = [k for k in RARE_KINDS if k not in seen]
-    if not kinds:
-        return None
-    return {"from": 1, "kinds": kinds, "act": "fail", "errno": rng.choice(["EPERM", "EOPNOTSUPP", "ENOSYS", "EIO", "EACCES"])}
+    """Calls the unchanged tool never makes (chmod, fsync, link, truncate, copy_file_range, ...) get no fault from the
+    enumeration over its recorded operations - but code that starts making them has to cope with their failure as well (a
+    file system without permissions or without fsync, a sandbox that refuses the call).  One class-addressed fault: every
+    such call fails.  (Not "kinds the twin did not make": the twin is recorded with the binary under test.)"""
+    return {"from": 1, "kinds": list(RARE_KINDS), "act": "fail", "errno": rng.choice(["EPERM", "EOPNOTSUPP", "ENOSYS", "EIO", "EACCES"])}
 
 
 def base_plan(plan):
